@@ -26,6 +26,8 @@ pub fn generate_c01(tier: &str, rng: &mut Prng) -> Vec<Case> {
     let thorough = tier == "thorough";
     // what `sign` hands to `compress` for the rare signatures that fill the fixed size to the last byte
     crate::c04::full_budget_bodies(tier, rng, &mut ops);
+    // every unary run length in what verify has to decode
+    crate::c02::unary_run_ops(&mut ops);
     for n in [512usize, 1024] {
         // keys from seeds whose candidate stream contains an f with a zero NTT slot (a key generator that lets such an f
         // through yields keys whose signatures do not verify)
@@ -129,7 +131,7 @@ pub fn oracle_sign_model(op: &[&str], out: &str) -> Verdict {
 
 pub fn oracle_c01(op: &[&str], out: &str) -> Verdict {
     match op[0] {
-        "compress" => crate::c07::oracle(op, out),
+        "compress" | "decompress" => crate::c07::oracle(op, out),
         "sign_model" => oracle_sign_model(op, out),
         "sign" => {
             if out.starts_with("PANIC") {
